@@ -111,6 +111,14 @@ def compare_units(a, b):
 
 
 # ---------------------------------------------------------------------------
+def _verdict(ctx, d, text, where, key):
+    """a proved difference is a violation; bookkeeping the engine could not relate is an analysis error"""
+    if d is not None and d.get("undecided"):
+        ctx.error(text + " -- not decided: the two sides keep different integer bookkeeping that could not be related", where, d)
+    else:
+        ctx.check(d is None, text, where, d, key=key)
+
+
 def r1_equivalence(ctx):
     impl = implementations(ctx)
     for cn, pn in (("rainflow1", "_rainflow1"), ("rainflow2", "_rainflow2")):
@@ -118,10 +126,9 @@ def r1_equivalence(ctx):
         res, mp = compare_units(a["norm"], b["norm"])
         for n in SHAPE[:-1]:
             d = res[n]
-            ctx.check(d is None, f"c_rain.{cn} == py_rain.{pn} [{UNIT_NAMES[n]}]: under jointly satisfiable conditions both make the same move with the same "
-                                 "effect on the reversal stack, the counters and the output rows (exact floating-point expression trees, counters up to "
-                                 "the change of variables derived from each program)", f"{a['where']} vs {ctx._where(b['where'])}", d,
-                      key=f"C05-R1|{cn}|{n}")
+            _verdict(ctx, d, f"c_rain.{cn} == py_rain.{pn} [{UNIT_NAMES[n]}]: under jointly satisfiable conditions both make the same move with the same "
+                             "effect on the reversal stack, the counters and the output rows (exact floating-point expression trees, counters up to "
+                             "the change of variables derived from each program)", f"{a['where']} vs {ctx._where(b['where'])}", f"C05-R1|{cn}|{n}")
 
 
 def r2_erasure(ctx):
@@ -131,8 +138,8 @@ def r2_erasure(ctx):
         erased = Y.normalise(Y.drop_arrays(b["raw"], ("cycle_index", "os")))
         res, mp = compare_units(a["norm"], erased)
         for n in SHAPE[:-1]:
-            ctx.check(res[n] is None, f"{side} {n1} == {n2} with the offset bookkeeping erased [{UNIT_NAMES[n].split(':')[0]}]: same values, counts and stack moves",
-                      b["where"], res[n], key=f"C05-R2|{side}|{n}")
+            _verdict(ctx, res[n], f"{side} {n1} == {n2} with the offset bookkeeping erased [{UNIT_NAMES[n].split(':')[0]}]: same values, counts and stack moves",
+                     b["where"], f"C05-R2|{side}|{n}")
 
 
 def r3_astm(ctx, astm_reference):
@@ -144,9 +151,8 @@ def r3_astm(ctx, astm_reference):
         ref = refs[a["offsets"]]
         res, mp = compare_units(ref["norm"], a["norm"])
         for n in SHAPE[:-1]:
-            ctx.check(res[n] is None, f"{side} {nm} [{UNIT_NAMES[n].split(':')[0]}]: equals the ASTM E1049-85 5.4.4 steps 1-6 automaton - same decisions (fewer than "
-                                      "three points, X < Y, Y contains the starting point) and the same effect on every path", a["where"], res[n],
-                      key=f"C05-R3|{side} {nm}|{n}")
+            _verdict(ctx, res[n], f"{side} {nm} [{UNIT_NAMES[n].split(':')[0]}]: equals the ASTM E1049-85 5.4.4 steps 1-6 automaton - same decisions (fewer than "
+                                  "three points, X < Y, Y contains the starting point) and the same effect on every path", a["where"], f"C05-R3|{side} {nm}|{n}")
 
 
 # ---------------------------------------------------------------------------
@@ -186,16 +192,18 @@ def rows_of(stores, cols):
     return rows
 
 
-def r5_lockstep(ctx):
+def r5_lockstep(ctx, entails=None):
     """values and their original positions move together: every store into the reversal stack is mirrored on the position stack, and each
-    emitted offset pair names the two points whose range is emitted"""
+    emitted offset pair names the two points whose range is emitted.  `entails(key, i, e)`: the inferred invariant at the i-th raw transition
+    proves e == 0 (used when the position is kept in another counter than the one that indexes the input)"""
     impl = implementations(ctx)
     for (side, nm), a in impl.items():
         if not a["offsets"]:
             continue
         ts = a["norm"]
+        raw = a["raw"]
         n = 0
-        for t in ts.trans:
+        for ti, t in enumerate(ts.trans):
             if t["src"] == Y.EPI:
                 continue
             unit = f"{t['src']}->{t['dst']}"
@@ -212,6 +220,16 @@ def r5_lockstep(ctx):
                             good = w == ("sel", "cycle_index", v[2])
                         elif _sel(v, "peaks"):
                             good = w == v[2]
+                            if not good and entails is not None:
+                                # the same question on the un-normalised transition, answered by the inferred invariants
+                                rt = raw.trans[ti]
+                                rp = {repr(i2): v2 for i2, v2 in rt["arrays"].get("pts", [])}
+                                rc = {repr(i2): v2 for i2, v2 in rt["arrays"].get("cycle_index", [])}
+                                if len(rp) == 1 and len(rc) == 1 and set(rp) == set(rc):
+                                    pv, cv = next(iter(rp.values())), next(iter(rc.values()))
+                                    ca = raw.ex.aff(cv) if raw.ex.is_int(cv) else None
+                                    if _sel(pv, "peaks") and ca is not None:
+                                        good = entails((side, nm), ti, ca - _ixaff(pv[2]))
                         else:
                             good = False
                         if not good:
